@@ -773,6 +773,34 @@ func (c *Ctx) evalWith(e ast.Expr, obj types.Object, val constant.Value) (consta
 							return v, true
 						}
 					}
+				} else if len(params) > 1 && len(params) == len(args) {
+					// several parameters: all bound through the environment
+					vals := make([]constant.Value, len(args))
+					all := true
+					for i, a := range args {
+						av, ok := c.evalWith(a, obj, val)
+						if !ok {
+							all = false
+							break
+						}
+						vals[i] = av
+					}
+					if all {
+						old := evalEnv
+						env := map[types.Object]constant.Value{}
+						for k, v := range old {
+							env[k] = v
+						}
+						for i, po := range params {
+							env[po] = vals[i]
+						}
+						evalEnv = env
+						v, returned, ok := c.evalBody(h.Body.List, nil, nil)
+						evalEnv = old
+						if ok && returned {
+							return v, true
+						}
+					}
 				}
 			}
 		}
